@@ -44,6 +44,9 @@ namespace rkcommon {
       FixedArray &operator=(std::vector<T> &rhs);
 
      private:
+      // a view shares ownership of the buffer it looks at
+      friend struct FixedArrayView<T>;
+
       // We use a shared ptr to actually manage lifetime the data lifetime
       std::shared_ptr<T> array = nullptr;
     };
